@@ -127,7 +127,7 @@ def run(ctx):
     # ---- leg B ---------------------------------------------------------------------------------
     items = []
     rng = ctx.rng
-    for k in range(ctx.pick(6000, 120000)):
+    for k in range(ctx.pick(5000, 120000)):
         asgi = bool(k & 1)
         trace, case, runs = H.random_trace(rng, asgi=asgi, ncomp=rng.randint(4, 6), maxhooks=3, regs=H.C3REGS,
                                            classes=H.ALL_CLASSES, nreqs=1 if k % 8 else 2)
